@@ -1199,10 +1199,8 @@ class Expr:
             "floor",
             "round",
             "truncate",
-            "nextafter",
             "logical_not",
             "sign",
-            "copysign",
             "conjugate",
             "asin_acos_kernel",
         }:
@@ -1218,6 +1216,8 @@ class Expr:
             "hypot",
             "remainder",
             "atan2",
+            "copysign",
+            "nextafter",
         }:
             return self.operands[0].get_type().max(self.operands[1].get_type())
         elif self.kind in {"absolute", "real", "imag"}:
